@@ -21,12 +21,16 @@ CHECKS = {
    text="For every stream of <=3 messages from a 16-message pool (sound, each fault kind, embedded newlines, empty, unterminated, messages of N-1/N/N+1 bytes, alignment pads) and 8 (quick) / 18 (thorough) buffer sizes, the real process future is executed under every composition of the stream into reads (short streams), every chunking with <=2-3 cuts, regular chunkings and inserted zero-length reads, and under every Pending pattern with <=1 (quick) / <=2 (thorough) suspended futures; all observations must equal the one-byte-per-read observation and, when every message fits and is single-newline, the run-per-message observation. In addition a breadth-first search over read histories, merged on (position, loop state from the hook, observation so far), explores every read size 0..=free at every state for streams up to 4N bytes and requires all terminal states of a stream to carry the same observation.",
    note="Merging relies on the hook exposing all loop-carried variables of process (argued in DESIGN.md 3.4); the un-merged enumeration does not. Executor polls unconditionally (no lost wake-ups modelled).",
    technique="explicit-state breadth-first search over the real process future (state merging on hooked loop state) plus exhaustive enumeration of read chunkings and deviation-bounded Pending patterns"),
+ "C10": dict(engine="env-enum",
+   text="For every stream of <=3 (quick) / <=4 (thorough) messages from a 10-message pool, buffer sizes 8/16/64 (thorough: 7 sizes) and every chunking with <=2 (thorough <=3) cuts plus regular chunkings and zero-length reads, the fault-free transport trace of the real process future is checked (response buffer empty and everything owed written and flushed at every read; writes equal the responses owed for the queries that ran successfully; no empty write; result is the transport's end-of-stream error, never Ok), and then a distinct transport error is injected at every index of that call sequence - reads, writes and flushes alike: the trace must be a prefix of the fault-free trace ending at the fault, nothing may follow, and process must return that very error.",
+   note="Owed responses are derived from the observed handler log and the recording interface's value table; a query unit for which an error is reported owes nothing.",
+   technique="exhaustive fault injection at every position of every explored transport call sequence of the real process future"),
  "C12": dict(engine="lex-sweep",
    text="Every token string x over a 30-token class-representative alphabet up to 5 (quick) / 6 (thorough) tokens, from four start nodes, is parsed by the real parser::parse; accepted units are re-parsed with every continuation of up to 2-3 tokens, rejected newline-terminated inputs likewise, and Incomplete verdicts are related to the verdicts of all byte prefixes. Exhaustive within these bounds; nothing is sampled.",
    note="Assumes the alphabet is class-representative for the parser's byte predicates (DESIGN.md 3.2); continuations bounded to 3 tokens; trusts rustc and the harness's verdict comparison.",
    technique="bounded exhaustive enumeration (stateless model checking) of parser inputs and continuations on the real code"),
 }
-LEVEL = {}  # property -> category override
+LEVEL = {"C10": "fault_enumeration"}  # property -> category override
 
 ENGINES = [
  {"name": "lex-sweep", "path": "harness/mc/src/lex.rs", "kind_free_text": "stateless exhaustive enumeration of all token strings up to a length bound, executed on the real parser / run"},
